@@ -169,6 +169,202 @@ Example accepted_example :
 Proof. vm_compute. reflexivity. Qed.
 
 (* ---------------------------------------------------------------------------------------------
+   the whole message: any Conditions shape, any list of SubjectConfirmation elements *)
+
+Lemma conf_ok_b_iff specs b eid c :
+  conf_ok_b specs b eid c = true <->
+  (forall d r, c_method c = Bearer -> c_data c = Some d -> d_confirmed d = true -> d_recipient d = Some r ->
+     eid = Some r \/ own_endpoint specs b r).
+Proof.
+  unfold conf_ok_b. destruct c as [m dd]; cbn [c_method c_data].
+  destruct m; try (split; [intros _ d r Hm; discriminate|reflexivity]).
+  destruct dd as [d0|]; [|split; [intros _ d r _ Hd; discriminate|reflexivity]].
+  destruct d0 as [rc cf]; cbn [d_recipient d_confirmed].
+  destruct cf; cbn [negb orb].
+  2:{ split; [intros _ d r _ Hd Hc|reflexivity]. inversion Hd; subst d. cbn in Hc. discriminate. }
+  destruct rc as [r0|].
+  2:{ split; [intros _ d r _ Hd _ Hr|reflexivity]. inversion Hd; subst d. cbn in Hr. discriminate. }
+  split.
+  - intros H d r _ Hd _ Hr. inversion Hd; subst d. cbn in Hr. inversion Hr; subst r0.
+    apply orb_true_iff in H as [H|H].
+    + left. destruct eid as [e|]; cbn in H; [|discriminate]. apply String.eqb_eq in H. subst; reflexivity.
+    + right. apply own_endpoint_b_iff; exact H.
+  - intros H. destruct (H _ r0 eq_refl eq_refl eq_refl eq_refl) as [->|Ho].
+    + cbn. rewrite String.eqb_refl. reflexivity.
+    + apply orb_true_iff; right. apply own_endpoint_b_iff; exact Ho.
+Qed.
+
+Lemma spec_m_b_iff x o : spec_m_b x o = true <-> spec_m x o.
+Proof.
+  unfold spec_m_b, spec_m. destruct o; cbn [negb orb].
+  2:{ split; [intros _ H; discriminate|reflexivity]. }
+  rewrite !andb_true_iff, restrictions_b_iff. split.
+  - intros [[H1 H2] H3]. intros _. split; [exact H1|]. split.
+    + intros Hf d Hd Hne. apply asynchop_iff in Hf. rewrite Hf, Hd in H2. cbn in H2.
+      apply orb_true_iff in H2 as [H2|H2]; [apply is_empty_true in H2; contradiction|].
+      apply own_endpoint_b_iff; exact H2.
+    + intros eid c d r Hc Hin Hm Hd Hcf Hr. rewrite Hc in H3.
+      rewrite forallb_forall in H3. specialize (H3 c Hin).
+      apply (proj1 (conf_ok_b_iff _ _ _ _) H3 d r Hm Hd Hcf Hr).
+  - intros H. destruct (H eq_refl) as [H1 [H2 H3]]. split; [split; [exact H1|]|].
+    + destruct (asynchop (m_binding x)) eqn:Ea; cbn [negb orb]; [|reflexivity].
+      destruct (m_dest x) as [d|] eqn:Ed; [|reflexivity].
+      destruct (is_empty d) eqn:Ee; [reflexivity|]. cbn [orb].
+      apply own_endpoint_b_iff. apply H2; [apply asynchop_iff; exact Ea|reflexivity|].
+      intros ->. discriminate.
+    + destruct (m_conv x) as [eid|] eqn:Ec; [|reflexivity].
+      apply forallb_forall. intros c Hin. apply conf_ok_b_iff.
+      intros d r Hm Hd Hcf Hr. exact (H3 eid c d r eq_refl Hin Hm Hd Hcf Hr).
+Qed.
+
+(* the loop of get_subject, in closed form: it ends in an exception iff some confirmation raises;
+   otherwise exactly the confirmations with verdict Keep are collected, in order *)
+Definition keeps conv addrs (c : confirmation) : bool := is_keep (conf_verdict conv addrs c).
+Definition raises conv addrs (c : confirmation) : bool := is_raise (conf_verdict conv addrs c).
+
+Lemma subject_loop_closed conv addrs l : forall kept,
+  subject_loop conv addrs l kept =
+  if existsb (raises conv addrs) l then None else Some (kept ++ filter (keeps conv addrs) l)%list.
+Proof.
+  induction l as [|c r IH]; intros kept; cbn [subject_loop existsb filter].
+  - rewrite app_nil_r. reflexivity.
+  - unfold raises at 1, keeps at 1. destruct (conf_verdict conv addrs c); cbn [is_raise is_keep orb].
+    + apply IH.
+    + rewrite IH, <- app_assoc. reflexivity.
+    + reflexivity.
+Qed.
+
+(* hence the verdict does not depend on the ORDER of the confirmations, nor on which one is last *)
+Lemma get_subject_closed conv addrs l :
+  get_subject conv addrs l = negb (existsb (raises conv addrs) l) && existsb (keeps conv addrs) l.
+Proof.
+  unfold get_subject. rewrite subject_loop_closed. cbn [app].
+  destruct (existsb (raises conv addrs) l); cbn [negb andb]; [reflexivity|].
+  induction l as [|c r IH]; cbn [filter existsb]; [reflexivity|].
+  destruct (keeps conv addrs c); cbn [orb]; [reflexivity|exact IH].
+Qed.
+
+(* a confirmed bearer confirmation that does not make the loop raise has a good Recipient *)
+Lemma bearer_not_raised conv addrs c d :
+  c_method c = Bearer -> c_data c = Some d -> d_confirmed d = true ->
+  raises conv addrs c = false -> recipient_ok conv addrs (d_recipient d) = true.
+Proof.
+  intros Hm Hd Hc. unfold raises, conf_verdict, check_recipient. rewrite Hm, Hd, Hc.
+  destruct (recipient_ok conv addrs (d_recipient d)); [reflexivity|discriminate].
+Qed.
+
+Lemma condition_ok_for_me c me : condition_ok c me = for_me (all_restrictions c) me.
+Proof.
+  destruct c as [k|]; cbn [condition_ok all_restrictions]; [|reflexivity].
+  destruct (keyswv_empty k) eqn:E; [|reflexivity].
+  unfold keyswv_empty in E. apply andb_true_iff in E as [_ E].
+  destruct (k_rs k); [reflexivity|discriminate].
+Qed.
+
+(* whether the Conditions carry a validity period or other children never matters for the audience test *)
+Lemma period_irrelevant nb nooa other rs me :
+  condition_ok (Some {| k_nb := nb; k_nooa := nooa; k_other := other; k_rs := rs |}) me = for_me rs me.
+Proof. apply condition_ok_for_me. Qed.
+
+(* main theorem over whole messages *)
+Lemma accept_holds x : spec_m x (accept x).
+Proof.
+  unfold spec_m, accept. intros H. apply andb_true_iff in H as [H H3]. apply andb_true_iff in H as [H1 H2].
+  split; [apply for_me_sound; rewrite <- condition_ok_for_me; exact H2|]. split.
+  - intros Hf d Hd Hne. apply asynchop_iff in Hf. unfold dest_ok in H1. rewrite Hf, Hd in H1.
+    apply orb_true_iff in H1 as [H1|H1]; [apply is_empty_true in H1; contradiction|].
+    apply endpoint_sound. apply mem_In; exact H1.
+  - intros eid c d r Hc Hin Hm Hd Hcf Hr.
+    rewrite get_subject_closed in H3. apply andb_true_iff in H3 as [H3 _].
+    apply negb_true_iff in H3.
+    assert (Hnr : raises (m_conv x) (endpoint (m_specs x) (m_binding x)) c = false).
+    { destruct (raises (m_conv x) (endpoint (m_specs x) (m_binding x)) c) eqn:E; [|reflexivity].
+      assert (Hex : existsb (raises (m_conv x) (endpoint (m_specs x) (m_binding x))) (m_confs x) = true)
+        by (apply existsb_exists; exists c; split; assumption).
+      rewrite Hex in H3. discriminate. }
+    pose proof (bearer_not_raised _ _ c d Hm Hd Hcf Hnr) as Hok.
+    unfold recipient_ok in Hok. rewrite Hr in Hok.
+    apply andb_true_iff in Hok as [_ Hok]. unfold verify_recipient in Hok. rewrite Hc in Hok.
+    apply orb_true_iff in Hok as [Hok|Hok].
+    + left. destruct eid as [e|]; cbn in Hok; [|discriminate]. apply String.eqb_eq in Hok. subst; reflexivity.
+    + right. apply endpoint_sound. apply mem_In; exact Hok.
+Qed.
+
+(* the one-confirmation, time-bounded message is the old input: same verdict, same property *)
+Lemma accept_of_input x : accept (of_input x) = identity x.
+Proof.
+  unfold accept, identity, of_input; cbn [m_me m_specs m_binding m_conds m_dest m_conv m_confs].
+  f_equal. unfold get_subject, bearer. cbn [subject_loop conf_verdict c_method c_data d_confirmed].
+  unfold check_recipient; cbn [d_recipient].
+  destruct (recipient_ok (conv x) (endpoint (specs x) (binding x)) (recip x)); reflexivity.
+Qed.
+
+Lemma spec_of_input x o : spec_m (of_input x) o <-> spec x o.
+Proof.
+  unfold spec_m, spec, of_input; cbn [m_me m_specs m_binding m_conds m_dest m_conv m_confs all_restrictions usual_conditions k_rs].
+  split; intros H Ho; destruct (H Ho) as [H1 [H2 H3]]; (split; [exact H1|split; [exact H2|]]).
+  - intros eid r Hc Hr. apply (H3 eid (bearer (recip x)) {| d_recipient := recip x; d_confirmed := true |} r Hc);
+      [left; reflexivity|reflexivity|reflexivity|reflexivity|exact Hr].
+  - intros eid c d r Hc [<-|[]] _ Hd _ Hr. cbn in Hd. inversion Hd; subst d. cbn in Hr. exact (H3 eid r Hc Hr).
+Qed.
+
+(* completeness over whole messages: Conditions of any shape whose restrictions all name me, own
+   Destination, and a list of confirmed bearer confirmations (at least one) that all name an own
+   endpoint: accepted *)
+Lemma message_to_me_accepted x d :
+  (forall q, In q (all_restrictions (m_conds x)) -> In (Some (m_me x)) q) -> m_me x <> "" -> no_outer_ws (m_me x) = true ->
+  m_dest x = Some d -> In (EP d (m_binding x)) (m_specs x) ->
+  m_confs x <> [] ->
+  (forall c, In c (m_confs x) -> exists r, c = bearer (Some r) /\ r <> "" /\ In (EP r (m_binding x)) (m_specs x)) ->
+  accept x = true.
+Proof.
+  intros Hrs Hme Hws Hd Hde Hne Hcs. unfold accept.
+  rewrite !andb_true_iff. split; [split|].
+  - unfold dest_ok. destruct (asynchop (m_binding x)); [|reflexivity]. rewrite Hd.
+    apply orb_true_iff; right. apply mem_In. apply endpoint_complete; exact Hde.
+  - rewrite condition_ok_for_me. unfold for_me. apply forallb_forall. intros q Hq. apply existsb_exists.
+    exists (Some (m_me x)). split; [apply Hrs; exact Hq|]. cbn. rewrite (strip_id _ Hws), String.eqb_refl.
+    destruct (m_me x); [contradiction|reflexivity].
+  - rewrite get_subject_closed.
+    assert (Hk : forall c, In c (m_confs x) -> conf_verdict (m_conv x) (endpoint (m_specs x) (m_binding x)) c = Keep).
+    { intros c Hin. destruct (Hcs c Hin) as [r [-> [Hr1 Hr2]]].
+      unfold conf_verdict, bearer, check_recipient; cbn [c_method c_data d_confirmed d_recipient].
+      replace (recipient_ok _ _ (Some r)) with true; [reflexivity|]. symmetry.
+      unfold recipient_ok. apply andb_true_iff. split; [destruct r; [contradiction|reflexivity]|].
+      unfold verify_recipient. destruct (m_conv x); [|reflexivity]. apply orb_true_iff; right.
+      apply mem_In. apply endpoint_complete; exact Hr2. }
+    apply andb_true_iff. split.
+    + apply negb_true_iff. destruct (existsb _ (m_confs x)) eqn:E; [|reflexivity].
+      apply existsb_exists in E as [c [Hin Hc]]. unfold raises in Hc. rewrite (Hk c Hin) in Hc. discriminate.
+    + destruct (m_confs x) as [|c r] eqn:E; [contradiction|]. cbn [existsb]. unfold keeps at 1.
+      rewrite (Hk c (or_introl eq_refl)). reflexivity.
+Qed.
+
+(* non-vacuity of the message theorems: no validity period, foreign look-alike bearer Recipient in a
+   NON-final confirmation => refused; the same with both confirmations mine => accepted; an
+   unusable (data-less) confirmation next to a good one => accepted; Conditions without validity
+   period naming someone else => refused *)
+Definition msg (k : option conditions) (cs : list confirmation) : message :=
+  {| m_me := "https://sp.example.org/sp.xml";
+     m_specs := [EP "https://sp.example.org/acs/post" "urn:oasis:names:tc:SAML:2.0:bindings:HTTP-POST"];
+     m_binding := "urn:oasis:names:tc:SAML:2.0:bindings:HTTP-POST";
+     m_conds := k; m_dest := Some "https://sp.example.org/acs/post";
+     m_conv := Some (Some "https://sp.example.org/sp.xml"); m_confs := cs |}.
+Definition no_period (rs : list (list audience)) : conditions :=
+  {| k_nb := false; k_nooa := false; k_other := false; k_rs := rs |}.
+Example message_examples :
+  let mine := Some (no_period [[Some "https://sp.example.org/sp.xml"]]) in
+  let good := bearer (Some "https://sp.example.org/acs/post") in
+  let evil := bearer (Some "https://sp.example.org.evil.example/acs/post") in
+  (accept (msg mine [evil; good]), accept (msg mine [good; evil]), accept (msg mine [good; good]),
+   accept (msg mine [{| c_method := Bearer; c_data := None |}; good]),
+   accept (msg mine []),
+   accept (msg (Some (no_period [[Some "https://other.example.org/sp.xml"]])) [good]),
+   accept (msg None [good]))
+  = (false, false, true, true, false, false, true).
+Proof. vm_compute. reflexivity. Qed.
+
+(* ---------------------------------------------------------------------------------------------
    call sequences on long-lived provider objects *)
 
 Lemma return_addrs_endpoint specs b : return_addrs specs b = endpoint specs b.
@@ -193,7 +389,7 @@ Qed.
 Lemma spec_ev_b_iff o r : spec_ev_b o r = true <-> spec_ev o r.
 Proof.
   destruct o as [x|s b|s b|s b]; destruct r as [i|u|l|a]; cbn [spec_ev_b spec_ev];
-    try apply spec_b_iff; try (split; [discriminate|contradiction]); split; auto.
+    try apply spec_m_b_iff; try (split; [discriminate|contradiction]); split; auto.
 Qed.
 
 Lemma all2_Forall2 {A B} (f : A -> B -> bool) (P : A -> B -> Prop) :
@@ -212,7 +408,7 @@ Lemma spec_trace_b_iff ops rs : spec_trace_b ops rs = true <-> spec_trace ops rs
 Proof. apply all2_Forall2. exact spec_ev_b_iff. Qed.
 
 Lemma step_holds o : spec_ev o (step o).
-Proof. destruct o; cbn [step spec_ev]; [apply addressing_holds|exact I|exact I|exact I]. Qed.
+Proof. destruct o; cbn [step spec_ev]; [apply accept_holds|exact I|exact I|exact I]. Qed.
 
 (* for EVERY sequence of calls on any number of provider objects, every parse call of the modelled
    behaviour satisfies the property with respect to its own object's configuration *)
@@ -223,7 +419,7 @@ Qed.
 
 (* the verdict on a Response does not depend on what was called before or after it *)
 Lemma history_independent pre post x :
-  nth_error (run_ops (pre ++ OParse x :: post)) (length pre) = Some (RId (identity x)).
+  nth_error (run_ops (pre ++ OParse x :: post)) (length pre) = Some (RId (accept x)).
 Proof.
   unfold run_ops. rewrite map_app. cbn [map].
   rewrite nth_error_app2; rewrite map_length; [|apply le_n].
@@ -234,9 +430,9 @@ Qed.
    has handled a login, a Response addressed to the FIRST one's URL is refused by the second, and a
    Response addressed to the second one's own URL is accepted by it *)
 Definition POSTB := "urn:oasis:names:tc:SAML:2.0:bindings:HTTP-POST".
-Definition resp_for (me_ url : string) (own : list epspec) : input :=
-  {| me := me_; specs := own; binding := POSTB; rs := [[Some me_]]; dest := Some url;
-     conv := Some (Some me_); recip := Some url |}.
+Definition resp_for (me_ url : string) (own : list epspec) : message :=
+  of_input {| me := me_; specs := own; binding := POSTB; rs := [[Some me_]]; dest := Some url;
+              conv := Some (Some me_); recip := Some url |}.
 Example two_providers_example :
   let one := [EP "https://one.example.org/acs/post" POSTB] in
   let two := [EP "https://two.example.org/acs/post" POSTB] in
